@@ -268,7 +268,7 @@ func C16Scenario() *Scenario {
 		w.Cfg["policy"] = pol.Name
 		w.Stages = []Stage{
 			{Name: "chaos", Policy: pol, Steps: 150 + 100*t.Pick(3, "len")},
-			{Name: "drain", Quiet: true, MaxSteps: 4000, Do: func(w *World) { b.Left = 0 }, Check: func(w *World) *Violation { return c16Oracle(w, ds) }},
+			{Name: "drain", Quiet: true, CheckOnBudget: true, MaxSteps: 4000, Do: func(w *World) { b.Left = 0 }, Check: func(w *World) *Violation { return c16Oracle(w, ds) }},
 		}
 	}}
 }
